@@ -32,6 +32,9 @@ PROPS["C02"] = {
         {"pkg": "app", "name": "VerifC02_Table", "quick": {}, "thorough": {}, "reach": ["end", "restart.taken", "restart.refused"],
          "bounds": {"policy": "arbitrary string len<=16", "max_restarts": "[0,2^31]", "restarts": "[0,2^31]", "exit_code": "full int64",
                     "backoff_seconds": "[-2^31,2^31]"}},
+        {"pkg": "app", "name": "VerifC02_Loop", "quick": {"d": 1}, "thorough": {"d": 2}, "reach": ["end", "relaunch"],
+         "bounds": {"attempts": "<=4 scripted exits (codes 0/3 per attempt), then runs until stopped", "policy": "no/always/on_failure/exit_on_failure",
+                    "max_restarts": "{0,1,2}", "backoff_seconds": "{0,2}", "stop request": "none or one, at any labelled instant"}},
     ],
     "stubs": [],
     "assumptions": ["max_restarts >= 0 (the statement is silent on negative values)", "second-valued options within +-2^31 (no Duration overflow)"],
